@@ -66,6 +66,13 @@ pub fn cossin(mut phase: i32) -> (i32, i32) {
     (cos, sin)
 }
 
+/// Verification hook: the lookup table written by `build.rs`.
+#[cfg(idsp_verif)]
+pub fn verif_cossin_table(i: usize) -> u32 {
+    COSSIN[i]
+}
+
+
 #[cfg(test)]
 mod tests {
     use super::*;
